@@ -80,5 +80,5 @@ PATTERNS = ["a", "b", "c", "ab", "ba", "^a", "a$", "b$", "^b", "^$", "", "a|b", 
 patterns = st.sampled_from(PATTERNS)
 # smaller pool for patternProperties names, so that several patterns meet the same keys
 PP_PATTERNS = ["", "a", "b", "^a", "b$", "a|b", "(a)\\1", "(b)\\1", "^ab?$", ".", "^$", "[0-9]", "c", "^b", "ab", "^%",
-               "%s", "a%"]
+               "%s", "a%", "^a$", "^ab$", "^b$"]
 pp_patterns = st.sampled_from(PP_PATTERNS)
